@@ -487,6 +487,304 @@ theorem dispatch_no_second_execution {fuel : Nat} {w w' : World} {blk : Block} {
     fuel w msgs w' ⟨hi, hx, rfl⟩ h
   exact ⟨this.2.2, this.2.1⟩
 
+/-! ## the converse log invariant: everything ever dispatched traces back to an executed proposal
+
+`execute_tx_dispatches_msgs` says what ONE committed Execute without self-calls appends to the ghost log.  The converse,
+over every history and with arbitrary nesting: the multiset of `sent`/`called` events of the committed log is exactly the
+multiset union, over the `executed id` events of the log (each proposal at most once: `executions_le_one`), of the
+proposal's own non-self-call messages. -/
+
+/-- `sent` / `called`: the events left by dispatched messages that are not calls back into the multisig. -/
+def isLeafEvent : Event → Bool
+  | .sent .. => true
+  | .called _ => true
+  | _ => false
+
+/-- The events the non-self-call messages of a message list leave when dispatched, in order. -/
+def leafEventsOf (msgs : List Msg) : List Event := (msgs.filter fun m => (selfCall m).isNone).map leafEvent
+
+/-- The stored messages of proposal `id` (`[]` when there is no such proposal). -/
+def msgsOf (c : Core) (id : Nat) : List Msg :=
+  match c.proposals.get? id with
+  | some p => p.msgs
+  | none => []
+
+/-- ⨄ over the `executed id` events of a log, in log order, of the leaf events of proposal `id`'s stored messages. -/
+def expectedLeaves (c : Core) : List Event → List Event
+  | [] => []
+  | .executed id :: rest => leafEventsOf (msgsOf c id) ++ expectedLeaves c rest
+  | .proposed _ :: rest => expectedLeaves c rest
+  | .voted _ _ :: rest => expectedLeaves c rest
+  | .closed _ :: rest => expectedLeaves c rest
+  | .sent _ _ _ :: rest => expectedLeaves c rest
+  | .called _ :: rest => expectedLeaves c rest
+
+theorem expectedLeaves_append (c : Core) (l l' : List Event) :
+    expectedLeaves c (l ++ l') = expectedLeaves c l ++ expectedLeaves c l' := by
+  induction l with
+  | nil => rfl
+  | cons e r ih => cases e <;> simp [expectedLeaves, ih]
+
+theorem expectedLeaves_congr {c c' : Core} : ∀ (l : List Event),
+    (∀ id, Event.executed id ∈ l → msgsOf c' id = msgsOf c id) → expectedLeaves c' l = expectedLeaves c l
+  | [], _ => rfl
+  | e :: r, h => by
+    have ih := expectedLeaves_congr r (fun id hm => h id (List.mem_cons_of_mem _ hm))
+    cases e <;> simp only [expectedLeaves, ih]
+    rename_i id
+    rw [h id (List.mem_cons_self ..)]
+
+theorem isLeafEvent_leafEvent (m : Msg) : isLeafEvent (leafEvent m) = true := by
+  cases m <;> rfl
+
+theorem leafEventsOf_cons (m : Msg) (rest : List Msg) :
+    leafEventsOf (m :: rest) = (if (selfCall m).isNone then [leafEvent m] else []) ++ leafEventsOf rest := by
+  unfold leafEventsOf
+  by_cases h : (selfCall m).isNone = true <;> simp [List.filter_cons, h]
+
+/-- In a world satisfying the ghost invariant, every `executed id` of the log is a stored proposal, and a handler call
+leaves its messages alone. -/
+theorem msgsOf_stable {w : World} {blk : Block} {snd : Addr} {em : ExecMsg} {s' : State} {out : List Msg}
+    (hq : GhostInv w) (he : execute w.ms blk snd em = .ok (s', out)) {id : Nat} (hm : Event.executed id ∈ w.log) :
+    msgsOf s'.core id = msgsOf w.ms.core id := by
+  have hc : 0 < executions w id := List.count_pos_iff.mpr hm
+  have hx : isExec w.ms.core id = true := by
+    have := hq.2 id
+    cases hx : isExec w.ms.core id with
+    | true => rfl
+    | false => rw [hx] at this; simp at this; omega
+  unfold isExec at hx
+  cases hp : w.ms.core.proposals.get? id with
+  | none => simp [hp] at hx
+  | some p =>
+    obtain ⟨p', hp', hf, _⟩ := (execute_later hq.1 he).props id p hp
+    have hmsgs : p'.msgs = p.msgs := by have := congrArg Proposal.msgs hf; exact this
+    simp [msgsOf, hp, hp', hmsgs]
+
+theorem ghost_call {w : World} {blk : Block} {snd : Addr} {em : ExecMsg} {s' : State} {out : List Msg}
+    (hq : GhostInv w) (he : execute w.ms blk snd em = .ok (s', out)) :
+    GhostInv { w with ms := s', log := w.log ++ [eventOf w.ms snd em] } := by
+  obtain ⟨hi, hg⟩ := hq
+  refine ⟨execute_inv hi he, ?_⟩
+  intro id
+  obtain ⟨h1, h2⟩ := handler_isExec hi he id
+  have hcount : executions { w with ms := s', log := w.log ++ [eventOf w.ms snd em] } id =
+      executions w id + (if em = .execute id then 1 else 0) := by
+    simp only [executions, List.count_append, List.count_cons, List.count_nil]
+    by_cases e : em = .execute id
+    · simp [e, eventOf]
+    · have : ¬ (eventOf w.ms snd em = .executed id) := fun h => e ((eventOf_executed _ _ _ _).mp h)
+      simp [e, this]
+  rw [hcount, hg id]
+  simp only [h1]
+  by_cases e : em = .execute id
+  · simp [e, h2 e]
+  · simp [e]
+
+theorem ghost_leaf {w w' : World} {m : Msg} (hq : GhostInv w) (hl : leaf w m = .ok w') : GhostInv w' := by
+  obtain ⟨hi, hg⟩ := hq
+  obtain ⟨hms, _, _⟩ := leaf_ms hl
+  refine ⟨hms ▸ hi, ?_⟩
+  intro id
+  rw [hms, ← hg id]
+  cases m <;> simp [leaf] at hl
+  · obtain ⟨b, _, rfl⟩ := hl; simp [executions, List.count_append]
+  · obtain ⟨_, rfl⟩ := hl; simp [executions, List.count_append]
+
+/-- **One handler call, in log terms**: the expected leaf events grow by exactly the leaf events of the messages the
+call returned (the proposal's messages for an Execute, nothing otherwise). -/
+theorem expected_call {w : World} {blk : Block} {snd : Addr} {em : ExecMsg} {s' : State} {out : List Msg}
+    (hq : GhostInv w) (he : execute w.ms blk snd em = .ok (s', out)) :
+    expectedLeaves s'.core (w.log ++ [eventOf w.ms snd em]) = expectedLeaves w.ms.core w.log ++ leafEventsOf out := by
+  rw [expectedLeaves_append, expectedLeaves_congr w.log (fun id hm => msgsOf_stable hq he hm)]
+  congr 1
+  cases em with
+  | execute id =>
+    obtain ⟨p, hp, hout⟩ := execute_out_eq_msgs he
+    obtain ⟨p', hp', hs', _⟩ := execute_sets_executed he
+    rw [hp] at hp'; cases hp'
+    simp [eventOf, expectedLeaves, msgsOf, hs', hout]
+  | propose t d msgs latest =>
+    have := only_execute_emits he (by intro id; simp)
+    subst this; simp [eventOf, expectedLeaves, leafEventsOf]
+  | vote id v =>
+    have := only_execute_emits he (by intro id; simp)
+    subst this; simp [eventOf, expectedLeaves, leafEventsOf]
+  | close id =>
+    have := only_execute_emits he (by intro id; simp)
+    subst this; simp [eventOf, expectedLeaves, leafEventsOf]
+
+/-- **The dedicated dispatch induction for the log.**  Over the dispatch of any message list, depth-first with all nested
+handler calls: for every leaf event `e`, if before the dispatch "logged + still to be dispatched here (+ `K` pending in
+the enclosing lists) = expected", then after it "logged (+ `K`) = expected". -/
+theorem conv_dispatch (blk : Block) (e : Event) (hleaf : isLeafEvent e = true) :
+    ∀ fuel w msgs w', GhostInv w → dispatch fuel w blk msgs = .ok w' →
+      GhostInv w' ∧ ∀ K, w.log.count e + (leafEventsOf msgs).count e + K = (expectedLeaves w.ms.core w.log).count e →
+        w'.log.count e + K = (expectedLeaves w'.ms.core w'.log).count e := by
+  intro fuel
+  induction fuel with
+  | zero =>
+    intro w msgs w' hq h
+    cases msgs with
+    | nil => simp [dispatch] at h; subst h; exact ⟨hq, fun K hk => by simpa [leafEventsOf] using hk⟩
+    | cons m rest => simp [dispatch] at h
+  | succ fuel ih =>
+    intro w msgs w' hq h
+    cases msgs with
+    | nil => simp [dispatch] at h; subst h; exact ⟨hq, fun K hk => by simpa [leafEventsOf] using hk⟩
+    | cons m rest =>
+      simp only [dispatch, Res.bind_ok] at h
+      obtain ⟨w1, h1, h2⟩ := h
+      suffices hstep : GhostInv w1 ∧ ∀ K, w.log.count e + (leafEventsOf (m :: rest)).count e + K =
+          (expectedLeaves w.ms.core w.log).count e →
+          w1.log.count e + (leafEventsOf rest).count e + K = (expectedLeaves w1.ms.core w1.log).count e by
+        obtain ⟨hq1, hk1⟩ := hstep
+        obtain ⟨hq', hk'⟩ := ih w1 rest w' hq1 h2
+        exact ⟨hq', fun K hk => hk' K (hk1 K hk)⟩
+      cases hs : selfCall m with
+      | none =>
+        rw [hs] at h1
+        refine ⟨ghost_leaf hq h1, fun K hk => ?_⟩
+        rw [leaf_log h1, (leaf_ms h1).1, expectedLeaves_append]
+        have hnil : expectedLeaves w.ms.core [leafEvent m] = [] := by cases m <;> rfl
+        rw [hnil, List.append_nil, List.count_append]
+        rw [leafEventsOf_cons, hs, List.count_append] at hk
+        simp only [Option.isNone_none, if_true] at hk
+        omega
+      | some em =>
+        rw [hs] at h1
+        simp only [Res.bind_ok] at h1
+        obtain ⟨⟨s', out⟩, he, hd⟩ := h1
+        obtain ⟨hq1, hk1⟩ := ih _ out w1 (ghost_call hq he) hd
+        refine ⟨hq1, fun K hk => ?_⟩
+        rw [leafEventsOf_cons, hs] at hk
+        simp only [Option.isNone_some, Bool.false_eq_true, if_false, List.nil_append] at hk
+        have hne : [eventOf w.ms w.self em].count e = 0 := by
+          have : eventOf w.ms w.self em ≠ e := by
+            intro x; rw [← x] at hleaf; cases em <;> cases hleaf
+          simp [this]
+        have := hk1 ((leafEventsOf rest).count e + K) (by
+          show (w.log ++ [eventOf w.ms w.self em]).count e + _ + _ = _
+          rw [expected_call hq he, List.count_append, List.count_append, hne]
+          omega)
+        omega
+
+/-- The invariant of the converse: for every leaf event, logged = expected. -/
+def ConvInv (w : World) : Prop :=
+  GhostInv w ∧ ∀ e, isLeafEvent e = true → w.log.count e = (expectedLeaves w.ms.core w.log).count e
+
+theorem conv_step (fuel : Nat) (w : World) (op : Op) (hq : ConvInv w) : ConvInv (step fuel w op) := by
+  unfold step
+  split
+  · rename_i snd m _
+    split
+    · rename_i w' htx
+      simp only [tx, Res.bind_ok] at htx
+      obtain ⟨⟨s', out⟩, he, hd⟩ := htx
+      refine ⟨(conv_dispatch op.blk (.called "") rfl fuel _ out w' (ghost_call hq.1 he) hd).1, fun e hleaf => ?_⟩
+      obtain ⟨_, hk⟩ := conv_dispatch op.blk e hleaf fuel _ out w' (ghost_call hq.1 he) hd
+      have hne : [eventOf w.ms snd m].count e = 0 := by
+        have : eventOf w.ms snd m ≠ e := by
+          intro x; rw [← x] at hleaf; cases m <;> cases hleaf
+        simp [this]
+      have := hk 0 (by
+        show (w.log ++ [eventOf w.ms snd m]).count e + _ + _ = _
+        rw [expected_call hq.1 he, List.count_append, List.count_append, hne, hq.2 e hleaf]
+        omega)
+      simpa using this
+    · exact hq
+  · split
+    · exact hq
+    · exact hq
+  · exact hq
+
+theorem reachable_conv {fuel : Nat} {w : World} (hr : Reachable fuel w) : ConvInv w := by
+  have hg := reachable_ghost hr
+  obtain ⟨m, s, self, bank, sink, ops, hi, rfl⟩ := hr
+  refine run_inv ConvInv fuel (conv_step fuel) ops _ ⟨?_, fun e _ => by simp [World.init, expectedLeaves]⟩
+  refine ⟨instantiate_inv hi, fun id => ?_⟩
+  have : s.core = Core.empty := by
+    simp [instantiate] at hi
+    obtain ⟨_, _, _, _, _, _, rfl⟩ := hi; rfl
+  simp [executions, World.init, isExec, this, Core.empty]
+
+/-- The proposals with an `executed` event in the log, in log order. -/
+def executedIds (log : List Event) : List Nat := log.filterMap fun | .executed id => some id | _ => none
+
+theorem expectedLeaves_eq_flatMap (c : Core) (l : List Event) :
+    expectedLeaves c l = (executedIds l).flatMap fun id => leafEventsOf (msgsOf c id) := by
+  induction l with
+  | nil => rfl
+  | cons e r ih => cases e <;> simp [expectedLeaves, executedIds, ih] <;> rfl
+
+theorem count_executedIds (log : List Event) (id : Nat) : (executedIds log).count id = log.count (.executed id) := by
+  induction log with
+  | nil => rfl
+  | cons e r ih =>
+    cases e <;> simp [executedIds, List.filterMap_cons, List.count_cons] at ih ⊢ <;> first | exact ih | (rw [ih])
+
+/-- **C05 converse, over every history: `dispatched_only_by_execute_run`.**  In every reachable world the `sent` /
+`called` events of the committed log — every bank send and every external call ever made on behalf of the multisig, at
+any nesting depth, in transactions by anybody — are, as a multiset (`List.Perm`), exactly the union over the `executed id`
+events of the log of the non-self-call messages stored in proposal `id` (`leafEventsOf (msgsOf …)`, by
+`proposal_immutable` / `expiry_le_max` the messages submitted with its Propose); every executed proposal contributes
+exactly once (`executedIds_nodup`).  Nothing is dispatched that no executed proposal contains, and nothing an executed
+proposal contains is skipped or repeated.  (The order inside one Execute without self-calls is `execute_tx_dispatches_msgs`;
+with nesting the events of an inner Execute sit between those of the outer one, which is why this is a multiset
+statement.) -/
+theorem dispatched_only_by_execute_run {fuel : Nat} {w : World} (hr : Reachable fuel w) :
+    (w.log.filter isLeafEvent).Perm ((executedIds w.log).flatMap fun id => leafEventsOf (msgsOf w.ms.core id)) := by
+  rw [← expectedLeaves_eq_flatMap]
+  rw [List.perm_iff_count]
+  intro e
+  cases hleaf : isLeafEvent e with
+  | true => rw [List.count_filter hleaf]; exact (reachable_conv hr).2 e hleaf
+  | false =>
+    have h1 : (w.log.filter isLeafEvent).count e = 0 := by
+      apply List.count_eq_zero.mpr
+      intro hm; rw [(List.mem_filter.mp hm).2] at hleaf; cases hleaf
+    have h2 : (expectedLeaves w.ms.core w.log).count e = 0 := by
+      apply List.count_eq_zero.mpr
+      rw [expectedLeaves_eq_flatMap]
+      intro hm
+      obtain ⟨id, _, hm⟩ := List.mem_flatMap.mp hm
+      obtain ⟨m, _, rfl⟩ := List.mem_map.mp hm
+      rw [isLeafEvent_leafEvent] at hleaf; cases hleaf
+    rw [h1, h2]
+
+/-- Each executed proposal occurs once in `executedIds` (at most one `executed id` event per proposal over every history). -/
+theorem executedIds_nodup {fuel : Nat} {w : World} (hr : Reachable fuel w) : (executedIds w.log).Nodup := by
+  rw [List.nodup_iff_count]
+  intro id
+  rw [count_executedIds]
+  exact (executions_le_one hr id).1
+
+/-- **Traces back.**  Every `sent` / `called` event of the committed log of a reachable world is the event of a
+non-self-call message stored in a proposal that has an `executed` event in that log (and is stored Executed). -/
+theorem dispatched_traces_back {fuel : Nat} {w : World} (hr : Reachable fuel w) {e : Event} (he : e ∈ w.log)
+    (hleaf : isLeafEvent e = true) :
+    ∃ id p m, Event.executed id ∈ w.log ∧ w.ms.core.proposals.get? id = some p ∧ p.status = .executed ∧ m ∈ p.msgs ∧
+      selfCall m = none ∧ leafEvent m = e := by
+  have hmem : e ∈ (executedIds w.log).flatMap fun id => leafEventsOf (msgsOf w.ms.core id) :=
+    (dispatched_only_by_execute_run hr).mem_iff.mp (List.mem_filter.mpr ⟨he, hleaf⟩)
+  obtain ⟨id, hid, hm⟩ := List.mem_flatMap.mp hmem
+  have hex : Event.executed id ∈ w.log := by
+    rw [← List.count_pos_iff, ← count_executedIds]; exact List.count_pos_iff.mpr hid
+  unfold leafEventsOf at hm
+  obtain ⟨m, hmf, rfl⟩ := List.mem_map.mp hm
+  obtain ⟨hm1, hm2⟩ := List.mem_filter.mp hmf
+  have hx := ((executions_le_one hr id).2.mp (by
+    have := (executions_le_one hr id).1
+    have : 0 < executions w id := List.count_pos_iff.mpr hex
+    omega))
+  unfold isExec at hx
+  cases hp : w.ms.core.proposals.get? id with
+  | none => simp [msgsOf, hp] at hm1
+  | some p =>
+    simp only [hp, decide_eq_true_eq] at hx
+    simp only [msgsOf, hp] at hm1
+    exact ⟨id, p, m, hex, hp, hx, hm1, by simpa using hm2, rfl⟩
+
 /-! ## the observed status only moves forward as time passes -/
 
 theorem isExpired_mono {e : Expiration} {b b' : Block} (hb : blockLe b b') (h : e.isExpired b = true) :
@@ -699,6 +997,25 @@ example :
 state satisfies `Inv`, and a further dispatch (an external call) succeeds — without adding an execution -/
 example : isExec (run 10 exW0 exMore).ms.core 1 = true ∧ executions (run 10 exW0 exMore) 1 = 1 ∧
     ((dispatch 5 (run 10 exW0 exMore) ⟨103, 1003⟩ [.other "x"]).toOption.map fun w' => executions w' 1) = some 1 := by
+  decide
+
+/-- non-vacuity of `dispatched_only_by_execute_run` / `dispatched_traces_back`, with nesting: proposal 1 =
+`[send 1 to bob, Execute 2, send 1 to carl]`, proposal 2 = `[call x]`, both Passed; one Execute of 1 commits and logs
+`executed 1, sent bob, executed 2, called x, sent carl` — the leaf events are a permutation (not the concatenation) of
+the executed proposals' messages `[sent bob, sent carl] ++ [called x]`. -/
+def exNested : World :=
+  run 10 exWorld
+    [⟨exBlk, .exec "a" (.propose "t" "d" [.bank "bob" 1 "ucosm", .selfExecute 2, .bank "carl" 1 "ucosm"] none)⟩,
+     ⟨exBlk, .exec "b" (.vote 1 .yes)⟩,
+     ⟨exBlk, .exec "a" (.propose "t" "d" [.other "x"] none)⟩, ⟨exBlk, .exec "b" (.vote 2 .yes)⟩,
+     ⟨exBlk, .exec "z" (.execute 1)⟩]
+
+example : Reachable 10 exNested := ⟨exInst, exState, "ms", _, true, _, rfl, rfl⟩
+example :
+    exNested.log.filter isLeafEvent = [.sent "bob" 1 "ucosm", .called "x", .sent "carl" 1 "ucosm"] ∧
+    executedIds exNested.log = [1, 2] ∧
+    ((executedIds exNested.log).flatMap fun id => leafEventsOf (msgsOf exNested.ms.core id))
+      = [.sent "bob" 1 "ucosm", .sent "carl" 1 "ucosm", .called "x"] := by
   decide
 
 end CwPlus.Props.C05
